@@ -235,6 +235,22 @@ def finish(rep, facts_stats, level_text, assumptions, trusted):
     return rc
 
 
+def borrow(F, rep, mod, only=None, exempt=None):
+    """Run the rules `only` of another property module inside this report.  The lender evaluates all of its rules; when one that is NOT borrowed
+    loses its anchor (AnalysisBroken) that is the lender's business (its own check reports it): here it only matters if a borrowed rule was
+    not evaluated because of it."""
+    from facts import AnalysisBroken
+    b = Borrowed(rep, exempt=exempt, only=only)
+    try:
+        mod.run(F, b)
+    except AnalysisBroken as e:
+        msg = str(e)
+        missing = [r for r in (only or []) if ('%s.%s' % (rep.pid, r)) not in rep.rules or not any(o['rule'] == '%s.%s' % (rep.pid, r) for o in rep.obligations)]
+        if only is None or missing or any(r in msg for r in only):
+            raise
+        rep.note('while borrowing %s from %s: a rule that is not borrowed lost its anchor there (%s); the borrowed rules had been evaluated' % (sorted(only), mod.__name__, msg[:160]))
+
+
 def cited_rules(text):
     """Rule ids cited in a reason text: `C08.G1/G2` -> {C08.G1, C08.G2}."""
     import re
@@ -259,7 +275,7 @@ def require_rules(F, rep, rule_ids):
         by.setdefault(pid, set()).add(r)
     for pid, rs in sorted(by.items()):
         mod = importlib.import_module(pid.lower())
-        mod.run(F, Borrowed(rep, only=rs))
+        borrow(F, rep, mod, only=rs)
         for r in rs:
             if ('%s.%s' % (rep.pid, r)) not in rep.rules:
                 from facts import AnalysisBroken
